@@ -46,7 +46,8 @@ pub extern "C" fn getpid() -> i32 {
     }
 }
 
-/// ... and so is the time of day (CLOCK_REALTIME only; monotonic clocks stay real).
+/// ... and so are the time of day and - with an occasional jump, as if the process had been suspended -
+/// the monotonic clock. Threads without an entropy seed (the harness itself) see the real clocks.
 ///
 /// # Safety
 /// Called by libc users with a valid timespec pointer.
@@ -56,6 +57,14 @@ pub unsafe extern "C" fn clock_gettime(clock: i32, ts: *mut Timespec) -> i32 {
         if let Some(secs) = mos_simrt::entropy::sim_realtime_secs() {
             (*ts).tv_sec = secs;
             (*ts).tv_nsec = 0;
+            return 0;
+        }
+    }
+    // CLOCK_MONOTONIC (1), _RAW (4), _COARSE (6), BOOTTIME (7): what std::time::Instant reads
+    if matches!(clock, 1 | 4 | 6 | 7) && !ts.is_null() {
+        if let Some(ns) = mos_simrt::entropy::sim_monotonic_nanos() {
+            (*ts).tv_sec = (ns / 1_000_000_000) as i64;
+            (*ts).tv_nsec = (ns % 1_000_000_000) as i64;
             return 0;
         }
     }
